@@ -575,10 +575,10 @@ Proof.
   destruct H as [|x tl Hx Ht]; cbn [skipn]; auto.
 Qed.
 
-Lemma filter_keep_all : forall s l, Forall (fun h => s < hit h) l -> filter (keep s) l = l.
+Lemma filter_keep_all : forall s l, Forall (fun h => s <= hit h) l -> filter (keep s) l = l.
 Proof.
   intros s l H. induction H as [|h tl Hh _ IH]; [reflexivity|].
-  cbn [filter]. unfold keep at 1. destruct (Z.ltb_spec s (hit h)); [now rewrite IH|lia].
+  cbn [filter]. unfold keep at 1. destruct (Z.leb_spec s (hit h)); [now rewrite IH|lia].
 Qed.
 
 Definition cont_of (st : pstate) : list hill := match snd st with Some m => m_cont m | None => [] end.
@@ -591,7 +591,7 @@ Definition wF (w : writer) : list hill := w_lost w ++ w_file w.
 Definition WInv (w : writer) : Prop :=
   w_D w = sf_hills (w_state w) ++ wF w /\
   (w_lost w = [] \/ (w_file w = [] /\ w_vis w = 0)) /\
-  Forall (fun h => sf_step (w_state w) < hit h) (wF w) /\
+  Forall (fun h => sf_step (w_state w) <= hit h) (wF w) /\
   0 <= w_vis w <= Z.of_nat (length (w_file w)).
 
 (* the mirror holds the state file that is in place (whatever file names it remembers: a change of names only
@@ -629,36 +629,31 @@ Proof.
   specialize (H x Hx). lia.
 Qed.
 
-Lemma steps_ok_spec : forall w s, steps_ok w s = true ->
-  sf_step (w_state w) <= s /\ Forall (fun x => hit x <= s) (w_D w).
-Proof.
-  intros w s H. unfold steps_ok in H. apply andb_true_iff in H. destruct H as [H1 H2].
-  apply Z.leb_le in H1. apply forallb_le in H2. auto.
-Qed.
-
 Lemma is_nil_spec : forall l, is_nil l = true -> l = [].
 Proof. intros [|x l] H; [reflexivity|discriminate]. Qed.
 
-(* a state file written at the same step as the one in place: nothing was deposited in between *)
-Lemma same_step_F_empty : forall w s, WInv w -> sf_step (w_state w) = s ->
-  Forall (fun x => hit x <= s) (w_D w) -> wF w = [].
+Lemma steps_ok_spec : forall w s, steps_ok w s = true ->
+  sf_step (w_state w) <= s /\ Forall (fun x => hit x <= s) (w_D w) /\
+  (sf_step (w_state w) = s -> wF w = []).
 Proof.
-  intros w s (HD & _ & HF & _) Hs Hle. rewrite HD in Hle. apply Forall_app in Hle. destruct Hle as [_ Hle].
-  destruct (wF w) as [|h tl]; auto.
-  inversion HF as [|? ? H1 _]; inversion Hle as [|? ? H2 _]; subst. lia.
+  intros w s H. unfold steps_ok in H. apply andb_true_iff in H. destruct H as [H H3].
+  apply andb_true_iff in H. destruct H as [H1 H2].
+  apply Z.leb_le in H1. apply forallb_le in H2. repeat split; auto.
+  intros E. apply orb_true_iff in H3. destruct H3 as [H3|H3]; [apply Z.ltb_lt in H3; lia|].
+  apply andb_true_iff in H3. destruct H3 as [Ha Hb]. unfold wF. now rewrite (is_nil_spec _ Ha), (is_nil_spec _ Hb).
 Qed.
 
 (* the state file is replaced by (s, everything deposited) and nothing is left outside it *)
 Lemma MInv_newstate : forall w w' m s, WInv w -> MInv w (Some m) ->
-  sf_step (w_state w) <= s -> Forall (fun x => hit x <= s) (w_D w) ->
+  sf_step (w_state w) <= s -> (sf_step (w_state w) = s -> wF w = []) ->
   w_state w' = mkSF s (w_D w) -> wF w' = [] ->
   MInv w' (Some m).
 Proof.
-  intros w w' m s HW (Hnd & HSle & Hcur & Hnc) Hs Hle Hst' Hf'. unfold MInv.
+  intros w w' m s HW (Hnd & HSle & Hcur & Hnc) Hs Hsame0 Hst' Hf'. unfold MInv.
   assert (Hsame : current w' m -> current w m /\ wF w = []).
   { intros (Hh & HS). rewrite Hst' in HS; cbn [sf_step] in HS. specialize (HSle Hh).
     assert (E : sf_step (w_state w) = s) by lia.
-    split; [split; auto; lia|]. apply (same_step_F_empty w s HW E Hle). }
+    split; [split; auto; lia|]. apply Hsame0, E. }
   split; [auto|]. split; [|split].
   - intros Hh. rewrite Hst'; cbn [sf_step]. specialize (HSle Hh). lia.
   - intros Hc'. destruct (Hsame Hc') as (Hc & Hfe). destruct (Hcur Hc) as (Hcont & Hp).
@@ -832,7 +827,7 @@ Proof.
   - destruct (Hcur H) as (_ & Hp). rewrite app_length. cbn [length]. lia.
 Qed.
 
-Lemma WInv_deposit : forall w h, WInv w -> w_lost w = [] -> sf_step (w_state w) < hit h -> WInv (wr_deposit w h).
+Lemma WInv_deposit : forall w h, WInv w -> w_lost w = [] -> sf_step (w_state w) <= hit h -> WInv (wr_deposit w h).
 Proof.
   intros w h (HD & Hlf & HF & Hv) Hl Hh. unfold WInv, wr_deposit, wF in *; cbn [w_D w_state w_file w_vis w_lost] in *.
   rewrite Hl in *. cbn [app] in *. repeat split; auto.
@@ -845,7 +840,7 @@ Qed.
 Lemma WInv_fresh : forall w, WInv w -> file_fresh w = true.
 Proof.
   intros w (_ & _ & HF & _). unfold file_fresh. apply forallb_forall. intros h Hh.
-  rewrite Forall_forall in HF. apply Z.ltb_lt. apply HF. unfold wF. apply in_or_app. auto.
+  rewrite Forall_forall in HF. apply Z.leb_le. apply HF. unfold wF. apply in_or_app. auto.
 Qed.
 
 Lemma writer_eq : forall a b, w_D a = w_D b -> w_reg a = w_reg b -> w_name a = w_name b ->
@@ -860,7 +855,7 @@ Proof.
   destruct e as [h|c|s|s| |b|k|k|s nn| | |]; cbn [pstep ev_ok] in *.
   - (* deposit *)
     apply andb_true_iff in Hok. destruct Hok as [Hok H3]. apply andb_true_iff in Hok. destruct Hok as [H1 _].
-    apply is_nil_spec in H1. apply Z.ltb_lt in H3.
+    apply is_nil_spec in H1. apply Z.leb_le in H3.
     split; cbn [fst snd]; [apply WInv_deposit|apply MInv_deposit]; auto.
   - (* visibility of the hills file *)
     split; cbn [fst snd].
@@ -868,22 +863,21 @@ Proof.
       repeat split; auto; try lia. destruct Hlf as [Hl|[Hf Hv0]]; auto. right. split; auto. rewrite Hf. cbn [length]. lia.
     + eapply MInv_ext; [| |exact HM]; reflexivity.
   - (* state-file rewrite as one event *)
-    apply andb_true_iff in Hok. destruct Hok as [_ Hok]. destruct (steps_ok_spec _ _ Hok) as [H1 H2].
+    apply andb_true_iff in Hok. destruct Hok as [_ Hok]. destruct (steps_ok_spec _ _ Hok) as (H1 & H2 & H2s).
     split; cbn [fst snd]; [eapply (WInv_newstate w); reflexivity|].
     destruct om as [m|]; [|exact I]. eapply (MInv_newstate w); eauto.
   - (* renaming the state file: the hills file has been restarted (or was empty) *)
     apply andb_true_iff in Hok. destruct Hok as [Hn Hok]. apply is_nil_spec in Hn.
-    destruct (steps_ok_spec _ _ Hok) as [H1 H2].
+    destruct (steps_ok_spec _ _ Hok) as (H1 & H2 & H2s).
     assert (Hv0 : w_vis w = 0) by (destruct HW as (_ & _ & _ & Hv); rewrite Hn in Hv; cbn [length] in Hv; lia).
     split; cbn [fst snd].
     + eapply (WInv_newstate w); cbn; auto.
     + destruct om as [m|]; [|exact I]. eapply (MInv_newstate w); eauto; try (unfold wF; cbn; now rewrite Hn).
   - (* restarting the hills file: what it held stays outside every file until the state file is renamed *)
-    pose proof (WInv_fresh _ HW) as Hfr.
-    assert (Hfilt : filter (keep (sf_step (w_state w))) (w_file w) = w_file w).
-    { apply filter_keep_all. destruct HW as (_ & _ & HF & _). unfold wF in HF. apply Forall_app in HF. apply HF. }
     assert (EF : wF (wr_state_b w) = wF w).
-    { unfold wF, wr_state_b; cbn [w_lost w_file]. now rewrite Hfilt, app_nil_r. }
+    { destruct HW as (HD & Hlf & _). unfold wF, wr_state_b; cbn [w_lost w_file]. rewrite app_nil_r.
+      fold (wF w). rewrite HD, app_length. replace (length (sf_hills (w_state w)) + length (wF w) - (length (sf_hills (w_state w)) + length (wF w)))%nat with 0%nat by lia.
+      reflexivity. }
     split; cbn [fst snd].
     + destruct HW as (HD & Hlf & HF & Hv). unfold WInv. rewrite EF. cbn [wr_state_b w_D w_state w_file w_vis w_lost].
       repeat split; auto; try lia; cbn [length]; lia.
@@ -901,7 +895,7 @@ Proof.
     + destruct HW as (HD & Hlf & HF & Hv). unfold WInv, wr_lvis, wF in *; cbn in *. repeat split; auto; lia.
     + eapply MInv_ext; [| |exact HM]; reflexivity.
   - (* setup_output *)
-    apply andb_true_iff in Hok. destruct Hok as [_ Hok]. destruct (steps_ok_spec _ _ Hok) as [H1 H2].
+    apply andb_true_iff in Hok. destruct Hok as [_ Hok]. destruct (steps_ok_spec _ _ Hok) as (H1 & H2 & H2s).
     split; cbn [fst snd]; [eapply (WInv_newstate w); reflexivity|].
     destruct om as [m|]; [|exact I]. eapply (MInv_newstate w); eauto.
   - (* the reader exchanges *)
